@@ -34,6 +34,12 @@ def directed_blocks(rng, start):
     """a block whose listed output reads a member without being one, then `remove_block`: the members are still in
     use from outside, the call has to be refused (or at least must not leave a dangling operand)"""
     ops = {g[0]: g[2] for g in start['gates']}
+    unused = [l for l in ops if not any(l in o for o in ops.values())]
+    members = [l for l in ops if l not in unused]
+    if unused and members and rng.random() < 0.5:
+        # a block that lists a gate nobody reads among its *inputs*; that gate is then removed
+        g = rng.choice(unused)
+        return start, [['make_block', 'DI', [rng.choice(members)], [], [g]], ['remove_gate', g], ['copy']]
     readers = [(o, l) for l, os_ in ops.items() for o in os_ if start and any(g[0] == o and g[1] != 'INPUT' for g in start['gates'])]
     if not readers:
         return None
